@@ -78,6 +78,37 @@ func strs(x []string) []string {
 
 // runAnalysisProp: the shared L2 stream; each property's Lean driver projects what it is about
 func runAnalysisProp(prop string, r *Rng, n int, tier string) {
+	// the fixed corpus first; for C05 every statement also runs in a package whose earlier queries select each
+	// table plainly, for C10 every statement is additionally run with one relation / column renamed
+	l2Corpus(func(id, engine, schema string, q QStmt) {
+		emitAnalysis(prop, id, engine, schema, q, "", false, nil)
+		if prop == "C05" {
+			pre := "-- name: SeedA :many\nSELECT * FROM authors;\n\n-- name: SeedB :many\nSELECT * FROM books;\n\n-- name: SeedV :many\nSELECT * FROM venues;\n\n"
+			emitAnalysis(prop, id+"-p", engine, schema, q, pre, true, nil)
+		}
+		if prop == "C10" {
+			cr := NewRng(uint64(len(id)*7919 + len(q.SQL)))
+			names := []string{"authors", "books", "venues"}
+			for k := 0; k < 2; k++ {
+				if sql, ok := replaceOneWord(cr, q.SQL, names, "nowhere"); ok {
+					q2 := q
+					q2.SQL, q2.Known = sql, nil
+					emitAnalysis(prop, fmt.Sprintf("%s-t%d", id, k), engine, schema, q2, "", false, nil)
+				}
+			}
+			for k := 0; k < 2; k++ {
+				if sql, ok := replaceOneWord(cr, q.SQL, []string{"name", "bio", "age", "tags", "title", "price", "slug", "author_id"}, "nope"); ok {
+					q2 := q
+					q2.SQL, q2.Known = sql, nil
+					emitAnalysis(prop, fmt.Sprintf("%s-c%d", id, k), engine, schema, q2, "", false, nil)
+				}
+			}
+			if engine == "postgresql" {
+				gone := [][2]string{{"authors", "name"}, {"authors", "age"}, {"books", "title"}, {"books", "price"}}
+				emitAnalysis(prop, id+"-m", engine, schema+"ALTER TABLE authors DROP COLUMN name, DROP COLUMN age;\nALTER TABLE books DROP COLUMN title, DROP COLUMN price;\n", q, "", false, gone)
+			}
+		}
+	})
 	for i := 0; i < n; i++ {
 		engine := "postgresql"
 		if r.Chance(20) {
@@ -137,22 +168,34 @@ func runAnalysisProp(prop string, r *Rng, n int, tier string) {
 			ddl, gone = multiActionAlter(r, s, q.SQL)
 			schema += ddl
 		}
-		res := analyzeStatement(engine, schema, q.Text(), false)
-		if gone != nil {
-			// what the migration removed, stated by the generator: the spec does not take sqlc's word for it
-			res.In["gone"] = gone
-		}
-		res.In["stmt"] = q.SQL
-		res.In["cmd"] = q.Cmd
-		res.In["nparams"] = q.NParams
 		if mustModel != "" {
-			res.In["mustModel"] = mustModel
+			q.Tags = append(q.Tags, "mustModel")
 		}
-		res.In["withSeedQueries"] = prefix != ""
-		impl := res.Impl
-		if impl["err"] == "" {
-			impl["go"] = goObservation(engine, schema, prefix+q.Text(), q.Name, i%2 == 0)
-		}
-		emit(Case{ID: fmt.Sprintf("q-%d", i), Kind: "analysis", In: res.In, Impl: impl, Known: q.Known, Tags: append(q.Tags, engine)})
+		emitAnalysisFull(prop, fmt.Sprintf("q-%d", i), engine, schema, q, prefix, i%2 == 0, gone, mustModel)
 	}
+}
+
+func emitAnalysis(prop, id, engine, schema string, q QStmt, prefix string, prepared bool, gone [][2]string) {
+	emitAnalysisFull(prop, id, engine, schema, q, prefix, prepared, gone, "")
+}
+
+// emitAnalysisFull: one statement through the real compiler (and, when it is accepted, through the Go generator)
+func emitAnalysisFull(prop, id, engine, schema string, q QStmt, prefix string, prepared bool, gone [][2]string, mustModel string) {
+	res := analyzeStatement(engine, schema, q.Text(), false)
+	if gone != nil {
+		// what the migration removed, stated by the generator: the spec does not take sqlc's word for it
+		res.In["gone"] = gone
+	}
+	res.In["stmt"] = q.SQL
+	res.In["cmd"] = q.Cmd
+	res.In["nparams"] = q.NParams
+	if mustModel != "" {
+		res.In["mustModel"] = mustModel
+	}
+	res.In["withSeedQueries"] = prefix != ""
+	impl := res.Impl
+	if impl["err"] == "" {
+		impl["go"] = goObservation(engine, schema, prefix+q.Text(), q.Name, prepared)
+	}
+	emit(Case{ID: id, Kind: "analysis", In: res.In, Impl: impl, Known: q.Known, Tags: append(q.Tags, engine)})
 }
